@@ -190,6 +190,7 @@ BASE = {
     'cleanup': ['$ touch cleanup-marker', "file f2.txt = -stdout-from $ echo c"],
 }
 PRELUDE = ['def line-matcher LM = contents matches x', 'def path HP = -rel-home x', 'def string S = s',
+           'def program PGM = % echo pgm-arg',
            'def path AP = /vsym-no-such-dir/sub',
            # strings built from several symbols, a path symbol first / second / at depth two
            'def string IND1 = "@[HP]@-@[S]@"', 'def string IND2 = "@[S]@-@[HP]@"', 'def string IND3 = "@[S]@@[S]@@[IND2]@"']
@@ -237,6 +238,33 @@ DEFECTS = (
     ('bad-integer-expression', 'timeout = 1+', ('VALIDATION_ERROR',), None),
     ('bad-integer-name', 'timeout = abc', ('VALIDATION_ERROR',), None),
     ('bad-regex', "file r.txt = -contents-of -rel-home existing.txt -transformed-by replace '(' y", ('VALIDATION_ERROR',), None),
+    # validation that is accumulated through references to program symbols (round 4: C03-r4m1 dropped the validators of
+    # arguments added where a program symbol is referenced)
+    ('missing-home-file-arg-added-at-program-symbol-reference', 'run @ PGM -existing-file -rel-home missing.txt', ('VALIDATION_ERROR',), None),
+    ('missing-home-file-arg-inside-referenced-program-symbol',
+     'def program PGM2 = % echo -existing-file -rel-home missing.txt\nrun @ PGM2 more', ('VALIDATION_ERROR',), None),
+    ('missing-home-file-arg-at-reference-of-reference',
+     'def program PGM3 = @ PGM a\nrun @ PGM3 -existing-file -rel-home missing.txt', ('VALIDATION_ERROR',), None),
+    ('missing-home-file-arg-at-program-symbol-reference-as-text-source',
+     'file p.txt = -stdout-from @ PGM -existing-dir -rel-home missing-dir', ('VALIDATION_ERROR',), None),
+    ('undefined-symbol-arg-added-at-program-symbol-reference', 'run @ PGM @[UNDEFINED_SYM]@', ('VALIDATION_ERROR',), None),
+    ('bad-regex-in-transformer-added-at-program-symbol-reference',
+     "file p2.txt = -stdout-from @ PGM\n    -transformed-by replace '(' y", ('VALIDATION_ERROR',), None),
+    # an undefined symbol in every argument position that takes references (round 4: C03-r4m2 lost the references of
+    # the DESTINATION of `copy`)
+    ('undefined-symbol-in-copy-source', 'copy @[UNDEFINED_SYM]@', ('VALIDATION_ERROR',), None),
+    ('undefined-symbol-in-copy-destination', 'copy -rel-home existing.txt @[UNDEFINED_SYM]@/dst.txt', ('VALIDATION_ERROR',), None),
+    ('illegal-relativity-via-symbol-in-copy-destination', 'copy -rel-home existing.txt @[HP]@/dst.txt', ('VALIDATION_ERROR',), None),
+    ('undefined-symbol-in-file-name', "file @[UNDEFINED_SYM]@ = 'x'", ('VALIDATION_ERROR',), None),
+    ('undefined-symbol-in-dir-name', 'dir -rel-tmp @[UNDEFINED_SYM]@', ('VALIDATION_ERROR',), None),
+    ('undefined-symbol-in-cd', 'cd @[UNDEFINED_SYM]@', ('VALIDATION_ERROR',), None),
+    ('undefined-symbol-in-env-value', 'env V = @[UNDEFINED_SYM]@', ('VALIDATION_ERROR',), None),
+    ('undefined-symbol-in-timeout', 'timeout = @[UNDEFINED_SYM]@', ('VALIDATION_ERROR',), None),
+    ('undefined-transformer-symbol', "file t.txt = 'x' -transformed-by UNDEFINED_TRANSFORMER", ('VALIDATION_ERROR',), None),
+    ('undefined-symbol-in-file-list', 'dir dl = { file @[UNDEFINED_SYM]@ }', ('VALIDATION_ERROR',), None),
+    ('undefined-matcher-symbol-in-assertion', 'exit-code UNDEFINED_MATCHER', ('VALIDATION_ERROR',), 'assert-only'),
+    ('undefined-symbol-in-path-of-assertion', 'exists @[UNDEFINED_SYM]@', ('VALIDATION_ERROR',), 'assert-only'),
+    ('undefined-file-matcher-symbol-in-assertion', 'exists f.txt : UNDEFINED_FM', ('VALIDATION_ERROR',), 'assert-only'),
     ('bad-regex-in-matcher-after-valid', "file r2.txt = -contents-of -rel-home existing.txt -transformed-by ( identity | filter contents matches '(' )",
      ('VALIDATION_ERROR',), None),
 )
@@ -246,6 +274,10 @@ ACT_DEFECTS = (
     ('act-undefined-symbol', ['$ echo @[UNDEFINED_SYM]@'], ('VALIDATION_ERROR',), None),
     ('act-symbol-defined-in-later-phase', ['$ echo @[LATER_BA]@'], ('VALIDATION_ERROR',), 'later-ba'),
     ('act-missing-home-program', ['missing-program-in-home arg'], ('VALIDATION_ERROR',), None),
+    ('act-missing-home-file-arg-added-at-program-symbol-reference', ['@ PGM -existing-file -rel-home missing.txt'],
+     ('VALIDATION_ERROR',), None),
+    ('act-undefined-symbol-arg-added-at-program-symbol-reference', ['@ PGM @[UNDEFINED_SYM]@'], ('VALIDATION_ERROR',), None),
+    ('act-missing-home-file-arg-of-program', ['% echo -existing-file -rel-home missing.txt'], ('VALIDATION_ERROR',), None),
 )
 
 
